@@ -2,7 +2,8 @@
 # re-runs every seeded change against the quick check of its property; prints one line per seed
 cd /verif
 for d in seeded/*/; do
-  s=$(basename $d); id=${s:0:3}
+  s=$(basename $d); id=$(python3 -c "import json,sys; print(json.load(open('$d/meta.json'))['caught_by'].get('check') or '')" 2>/dev/null)
+  [ -z "$id" ] && { echo "$s not claimed (see meta.json: outside the property's domain)"; continue; }
   out=$(tools/mutant.sh /verif/$d/patch.diff $id 2>&1); rc=$?
   echo "$s rc=$rc $(echo "$out" | grep -a 'VIOLATION' | head -1 | cut -c1-120)"
 done
